@@ -78,6 +78,16 @@ def boundOK (I B : Int) (gs : List Int) : Bool :=
   gs.all fun a => gs.all fun b =>
     if a ≤ b then decide ((countIn gs (a - 1) (b - a + 1) : Int) ≤ B + ceilDiv (b - a + 1) I) else true
 
+/-- total size of the backward steps of a request sequence (first request compared with `last`). -/
+def backSteps : Int → List Int → Int
+  | _, [] => 0
+  | last, t :: ts => (if t < last then last - t else 0) + backSteps t ts
+
+/-- the bound with the window stretched by `S` (request times that went backwards by `S` in total). -/
+def boundOKSkew (I B S : Int) (gs : List Int) : Bool :=
+  gs.all fun a => gs.all fun b =>
+    if a ≤ b then decide ((countIn gs (a - 1) (b - a + 1) : Int) ≤ B + ceilDiv (b - a + 1 + S) I) else true
+
 end Spec
 
 end ShellOp.RateLimit
